@@ -562,6 +562,12 @@ func (st *State) mathCall(name string, args []Value) (Value, bool) {
 		if allConst && a.sort == SF64 && b.sort == SF64 {
 			return ts.F64(math.Pow(a.f, b.f)), true
 		}
+		if !st.realMode() && !allConst {
+			a, b = st.tryConst(a), st.tryConst(b)
+			if a.isConst() && b.isConst() {
+				return ts.F64(math.Pow(a.f, b.f)), true
+			}
+		}
 		// real reading with a small concrete integer exponent: the product
 		if st.h.mode == ModeR && b.isConst() && b.sort == SF64 && b.f == math.Trunc(b.f) && b.f >= 0 && b.f <= 12 {
 			ra := st.toReal(a)
@@ -623,8 +629,26 @@ func (st *State) ufMath(name string, a *Term) *Term {
 	case "log", "log2", "log10":
 		// log x < 0 <=> x < 1 on x > 0; log 1 = 0
 		pos := lt(zero, a)
+		if !st.realMode() {
+			ts.Define(r, imp(ts.And(pos, ts.Not(st.fIsInf(a, 0))), ts.Not(ts.Or(st.fIsNaN(r), st.fIsInf(r, 0)))))
+		}
 		ts.Define(r, imp(pos, ts.Eq2(lt(r, zero), lt(a, one))))
 		ts.Define(r, imp(pos, ts.Eq2(st.fcmp(token.EQL, r, zero), st.fcmp(token.EQL, a, one))))
+	}
+	// inverse pairs in the real reading: exp(log x) = x, log(exp t) = t, instantiated on occurring terms
+	if st.realMode() && (name == "exp" || name == "log") {
+		other := "log"
+		if name == "log" {
+			other = "exp"
+		}
+		for _, p := range st.ufOcc[other] {
+			pa := p.args[0]
+			// f(a) = r, g(pa) = p ; if a == p then r == pa ; if pa == r then p == a
+			ts.Define(r, imp(ts.Eq(a, p), ts.Eq(r, pa)))
+			ts.Define(r, imp(ts.Eq(pa, r), ts.Eq(p, a)))
+			ts.Define(p, imp(ts.Eq(a, p), ts.Eq(r, pa)))
+			ts.Define(p, imp(ts.Eq(pa, r), ts.Eq(p, a)))
+		}
 	}
 	// monotonicity against earlier applications
 	mono := 0
